@@ -132,7 +132,7 @@ theorem accepted_wf (st st' : Settings) (r : RawTxn) (t : Txn) (hwf : C01.RawWF 
           rcases List.mem_append.mp hq with h1 | h1
           · exact hmain q h1
           · simp at h1; subst h1; exact hl
-      (repeat' split at h) <;> first | (cases h; done) | (cases h; exact hall)
+      (repeat' split at h) <;> first | (cases h; done) | (exact absurd h (Outcome.inexact_ne_ok _ _)) | (cases h; exact hall)
 
 /-- **loaded_wf**: numbers that come out of the parser have at most 28 decimals (`C01.ofToken_wf`), hence so has
     every posting amount of a loaded journal – the hypothesis `TxnsWF` of the theorems below holds for every
